@@ -3,649 +3,14 @@
 #![allow(unused_macros, unused_imports, unused_variables, unused_mut)]
 #![allow(unstable_name_collisions)]
 
-use bnum_verif_harness::gen::{self, Rng, B};
-use bnum_verif_harness::*;
-use std::hash::{Hash, Hasher};
-
-fn hash_of<T: Hash>(x: &T) -> u64 {
-    let mut h = std::collections::hash_map::DefaultHasher::new();
-    x.hash(&mut h);
-    h.finish()
-}
-
-// ----------------------------------------------------------------------------------------------
-// C05
-
-macro_rules! c05_one {
-    ($r:expr, $x:expr, $s:expr, $prim:tt) => {{
-        let x = $x;
-        let s: u32 = $s;
-        $r.sem = "C05";
-        $r.fam("shl", vec![int(&x), nat(s as u128)]);
-        $r.form("checked", || opt(x.checked_shl(s)));
-        $r.form("overflowing", || pairf(x.overflowing_shl(s)));
-        $r.form("wrapping", || val(x.wrapping_shl(s)));
-        $r.form("strict", || val(x.strict_shl(s)));
-        $r.form("unbounded", || val(x.unbounded_shl(s)));
-        $r.form("op", || val(x << std::hint::black_box(s)));
-        c05_inherent!($r, x, s, shl, $prim);
-        if s < wof(&x) {
-            $r.form_unsafe("unchecked", || val(unsafe { x.unchecked_shl(s) }));
-        }
-        $r.fam("shr", vec![int(&x), nat(s as u128)]);
-        $r.form("checked", || opt(x.checked_shr(s)));
-        $r.form("overflowing", || pairf(x.overflowing_shr(s)));
-        $r.form("wrapping", || val(x.wrapping_shr(s)));
-        $r.form("strict", || val(x.strict_shr(s)));
-        $r.form("unbounded", || val(x.unbounded_shr(s)));
-        $r.form("op", || val(x >> std::hint::black_box(s)));
-        c05_inherent!($r, x, s, shr, $prim);
-        if s < wof(&x) {
-            $r.form_unsafe("unchecked", || val(unsafe { x.unchecked_shr(s) }));
-        }
-        $r.ev("rotate_left", vec![int(&x), nat(s as u128)], || val(x.rotate_left(s)));
-        $r.ev("rotate_right", vec![int(&x), nat(s as u128)], || val(x.rotate_right(s)));
-    }};
-}
-macro_rules! c05_inherent {
-    ($r:expr, $x:expr, $s:expr, $m:ident, bnum) => {
-        $r.form("inherent", || val($x.$m($s)));
-    };
-    ($r:expr, $x:expr, $s:expr, $m:ident, prim) => {};
-}
-macro_rules! c05_pair {
-    ($U:ty, $I:ty, $ru:expr, $ri:expr, $x:expr, $s:expr, $prim:tt) => {{
-        let ux = <$U as Bn>::dec($x);
-        let ix = <$I as Bn>::dec($x);
-        c05_one!($ru, ux, $s, $prim);
-        c05_one!($ri, ix, $s, $prim);
-    }};
-}
-
-// ----------------------------------------------------------------------------------------------
-// C06
-
-macro_rules! c06_logic_one {
-    ($r:expr, $a:expr, $b:expr, bnum) => {{
-        let (a, b) = ($a, $b);
-        $r.sem = "C06";
-        $r.fam("bitand", vec![int(&a), int(&b)]);
-        $r.form("op", || val(a & b));
-        $r.form("inherent", || val(a.bitand(b)));
-        $r.fam("bitor", vec![int(&a), int(&b)]);
-        $r.form("op", || val(a | b));
-        $r.form("inherent", || val(a.bitor(b)));
-        $r.fam("bitxor", vec![int(&a), int(&b)]);
-        $r.form("op", || val(a ^ b));
-        $r.form("inherent", || val(a.bitxor(b)));
-    }};
-    ($r:expr, $a:expr, $b:expr, prim) => {{
-        let (a, b) = ($a, $b);
-        $r.sem = "C06";
-        $r.fam("bitand", vec![int(&a), int(&b)]);
-        $r.form("op", || val(a & b));
-        $r.fam("bitor", vec![int(&a), int(&b)]);
-        $r.form("op", || val(a | b));
-        $r.fam("bitxor", vec![int(&a), int(&b)]);
-        $r.form("op", || val(a ^ b));
-    }};
-}
-macro_rules! c06_unary_one {
-    ($r:expr, $a:expr, $prim:tt) => {{
-        let a = $a;
-        $r.sem = "C06";
-        $r.fam("not", vec![int(&a)]);
-        $r.form("op", || val(!a));
-        c06_not_inherent!($r, a, $prim);
-        $r.fam("counts", vec![int(&a)]);
-        $r.form("count_ones", || natv(a.count_ones() as u128));
-        $r.form("count_zeros", || natv(a.count_zeros() as u128));
-        $r.form("leading_zeros", || natv(a.leading_zeros() as u128));
-        $r.form("trailing_zeros", || natv(a.trailing_zeros() as u128));
-        $r.form("leading_ones", || natv(a.leading_ones() as u128));
-        $r.form("trailing_ones", || natv(a.trailing_ones() as u128));
-        c06_bits!($r, a, $prim);
-        $r.ev("swap_bytes", vec![int(&a)], || val(a.swap_bytes()));
-        $r.ev("reverse_bits", vec![int(&a)], || val(a.reverse_bits()));
-        $r.ev("swap_bytes_twice", vec![int(&a)], || val(a.swap_bytes().swap_bytes()));
-        $r.ev("reverse_bits_twice", vec![int(&a)], || val(a.reverse_bits().reverse_bits()));
-        $r.ev("is_power_of_two", vec![int(&a)], || boolv(a.is_power_of_two()));
-    }};
-}
-macro_rules! c06_not_inherent {
-    ($r:expr, $a:expr, bnum) => {
-        $r.form("inherent", || val($a.not()));
-        $r.form("ref", || val(!&$a));
-    };
-    ($r:expr, $a:expr, prim) => {};
-}
-macro_rules! c06_bits {
-    ($r:expr, $a:expr, bnum) => {
-        $r.form("bits", || natv($a.bits() as u128));
-        $r.fam("zero_one", vec![int(&$a)]);
-        $r.form("is_zero", || boolv($a.is_zero()));
-        $r.form("is_one", || boolv($a.is_one()));
-    };
-    ($r:expr, $a:expr, prim) => {};
-}
-macro_rules! c06_pair {
-    ($U:ty, $I:ty, $ru:expr, $ri:expr, $a:expr, $b:expr, $prim:tt) => {{
-        let ua = <$U as Bn>::dec($a);
-        let ub = <$U as Bn>::dec($b);
-        let ia = <$I as Bn>::dec($a);
-        let ib = <$I as Bn>::dec($b);
-        c06_logic_one!($ru, ua, ub, $prim);
-        c06_logic_one!($ri, ia, ib, $prim);
-    }};
-}
-macro_rules! c06_unary {
-    ($U:ty, $I:ty, $ru:expr, $ri:expr, $a:expr, bnum) => {{
-        let ua = <$U as Bn>::dec($a);
-        let ia = <$I as Bn>::dec($a);
-        c06_unary_one!($ru, ua, bnum);
-        c06_unary_one!($ri, ia, bnum);
-        $ru.fam("next_power_of_two", vec![int(&ua)]);
-        $ru.form("checked", || opt(ua.checked_next_power_of_two()));
-        $ru.form("wrapping", || val(ua.wrapping_next_power_of_two()));
-    }};
-    ($U:ty, $I:ty, $ru:expr, $ri:expr, $a:expr, prim) => {{
-        let ua = <$U as Bn>::dec($a);
-        let ia = <$I as Bn>::dec($a);
-        c06_unary_one!($ru, ua, prim);
-        // signed primitives have no is_power_of_two; the counts and reversals are calibrated
-        $ri.sem = "C06";
-        $ri.fam("not", vec![int(&ia)]);
-        $ri.form("op", || val(!ia));
-        $ri.fam("counts", vec![int(&ia)]);
-        $ri.form("count_ones", || natv(ia.count_ones() as u128));
-        $ri.form("count_zeros", || natv(ia.count_zeros() as u128));
-        $ri.form("leading_zeros", || natv(ia.leading_zeros() as u128));
-        $ri.form("trailing_zeros", || natv(ia.trailing_zeros() as u128));
-        $ri.form("leading_ones", || natv(ia.leading_ones() as u128));
-        $ri.form("trailing_ones", || natv(ia.trailing_ones() as u128));
-        $ri.ev("swap_bytes", vec![int(&ia)], || val(ia.swap_bytes()));
-        $ri.ev("reverse_bits", vec![int(&ia)], || val(ia.reverse_bits()));
-        $ru.fam("next_power_of_two", vec![int(&ua)]);
-        $ru.form("checked", || opt(ua.checked_next_power_of_two()));
-    }};
-}
-macro_rules! c06_bit {
-    ($U:ty, $I:ty, $ru:expr, $ri:expr, $a:expr, $i:expr, bnum) => {{
-        let ua = <$U as Bn>::dec($a);
-        let ia = <$I as Bn>::dec($a);
-        let i: u32 = $i;
-        $ru.sem = "C06";
-        $ri.sem = "C06";
-        $ru.ev("bit", vec![int(&ua), nat(i as u128)], || boolv(ua.bit(i)));
-        $ri.ev("bit", vec![int(&ia), nat(i as u128)], || boolv(ia.bit(i)));
-        for v in [false, true] {
-            $ru.ev("set_bit", vec![int(&ua), nat(i as u128), boolean(v)], || {
-                let mut x = ua;
-                x.set_bit(i, v);
-                val(x)
-            });
-        }
-        $ru.ev("power_of_two", vec![nat(i as u128)], || val(<$U>::power_of_two(i)));
-    }};
-    ($U:ty, $I:ty, $ru:expr, $ri:expr, $a:expr, $i:expr, prim) => {};
-}
-
-// ----------------------------------------------------------------------------------------------
-// C07
-
-macro_rules! c07_pair_one {
-    ($r:expr, $a:expr, $b:expr, $prim:tt) => {{
-        let (a, b) = ($a, $b);
-        $r.sem = "C07";
-        $r.fam("cmp_all", vec![int(&a), int(&b)]);
-        $r.form("op_eq", || boolv(a == b));
-        $r.form("op_ne", || boolv(a != b));
-        $r.form("op_lt", || boolv(a < b));
-        $r.form("op_le", || boolv(a <= b));
-        $r.form("op_gt", || boolv(a > b));
-        $r.form("op_ge", || boolv(a >= b));
-        $r.form("ord_cmp", || ordv(Ord::cmp(&a, &b)));
-        $r.form("partial_cmp", || match PartialOrd::partial_cmp(&a, &b) {
-            Some(o) => ordv(o),
-            None => Out::None_,
-        });
-        $r.form("ord_max", || val(Ord::max(a, b)));
-        $r.form("ord_min", || val(Ord::min(a, b)));
-        $r.form("trait_eq", || boolv(PartialEq::eq(&a, &b)));
-        $r.form("trait_ne", || boolv(PartialEq::ne(&a, &b)));
-        $r.form("trait_lt", || boolv(PartialOrd::lt(&a, &b)));
-        $r.form("trait_le", || boolv(PartialOrd::le(&a, &b)));
-        $r.form("trait_gt", || boolv(PartialOrd::gt(&a, &b)));
-        $r.form("trait_ge", || boolv(PartialOrd::ge(&a, &b)));
-        c07_inherent!($r, a, b, $prim);
-        $r.form("hash_eq", || boolv(hash_of(&a) == hash_of(&b)));
-    }};
-}
-macro_rules! c07_inherent {
-    ($r:expr, $a:expr, $b:expr, bnum) => {
-        $r.form("eq", || boolv($a.eq(&$b)));
-        $r.form("ne", || boolv($a.ne(&$b)));
-        $r.form("lt", || boolv($a.lt(&$b)));
-        $r.form("le", || boolv($a.le(&$b)));
-        $r.form("gt", || boolv($a.gt(&$b)));
-        $r.form("ge", || boolv($a.ge(&$b)));
-        $r.form("cmp", || ordv($a.cmp(&$b)));
-        $r.form("max", || val($a.max($b)));
-        $r.form("min", || val($a.min($b)));
-    };
-    ($r:expr, $a:expr, $b:expr, prim) => {};
-}
-macro_rules! c07_clamp_one {
-    ($r:expr, $x:expr, $lo:expr, $hi:expr, $prim:tt) => {{
-        // the caller orders the bounds with the harness's own byte comparison (never with bnum)
-        let (x, lo, hi) = ($x, $lo, $hi);
-        $r.sem = "C07";
-        $r.fam("clamp", vec![int(&x), int(&lo), int(&hi)]);
-        $r.form("ord_clamp", || val(Ord::clamp(x, lo, hi)));
-        c07_clamp_inherent!($r, x, lo, hi, $prim);
-    }};
-}
-macro_rules! c07_clamp_inherent {
-    ($r:expr, $x:expr, $lo:expr, $hi:expr, bnum) => {
-        $r.form("clamp", || val($x.clamp($lo, $hi)));
-    };
-    ($r:expr, $x:expr, $lo:expr, $hi:expr, prim) => {};
-}
-macro_rules! c07_pair {
-    ($U:ty, $I:ty, $ru:expr, $ri:expr, $a:expr, $b:expr, $c:expr, $prim:tt) => {{
-        let ua = <$U as Bn>::dec($a);
-        let ub = <$U as Bn>::dec($b);
-        let uc = <$U as Bn>::dec($c);
-        let ia = <$I as Bn>::dec($a);
-        let ib = <$I as Bn>::dec($b);
-        let ic = <$I as Bn>::dec($c);
-        c07_pair_one!($ru, ua, ub, $prim);
-        c07_pair_one!($ri, ia, ib, $prim);
-        // clamp: order the bounds with primitive byte comparison of the harness, not with bnum
-        let (ulo, uhi) = if gen::ucmp($b, $c) == std::cmp::Ordering::Greater { (uc, ub) } else { (ub, uc) };
-        c07_clamp_one!($ru, ua, ulo, uhi, $prim);
-        let sb = gen::scmp($b, $c);
-        let (ilo, ihi) = if sb == std::cmp::Ordering::Greater { (ic, ib) } else { (ib, ic) };
-        c07_clamp_one!($ri, ia, ilo, ihi, $prim);
-        $ri.sem = "C07";
-        $ri.fam("sign", vec![int(&ia)]);
-        $ri.form("signum", || val(ia.signum()));
-        $ri.form("is_positive", || boolv(ia.is_positive()));
-        $ri.form("is_negative", || boolv(ia.is_negative()));
-    }};
-}
-
-// ----------------------------------------------------------------------------------------------
-
-#[derive(Default)]
-struct Inputs {
-    shifts: Vec<(B, u32)>,
-    vals: Vec<B>,
-    pairs: Vec<(B, B)>,
-    bits: Vec<(B, u32)>,
-    triples: Vec<(B, B, B)>,
-}
-
-fn shift_amounts(r: &mut Rng, w: u32, thorough: bool) -> Vec<u32> {
-    let mut v: Vec<u32> = Vec::new();
-    if thorough || w <= 16 {
-        v.extend(0..=(2 * w + 1));
-    } else {
-        v.extend([0, 1, 2, 7, 8, 9, w / 2, w - 9, w - 8, w - 7, w - 2, w - 1, w, w + 1, w + 7, w + 8, w + 9, 2 * w - 1, 2 * w, 2 * w + 1]);
-        // multiples of each digit width +- 1
-        for d in [8u32, 16, 32, 64] {
-            let mut k = d;
-            while k <= w {
-                if r.below(3) == 0 {
-                    v.extend([k - 1, k, k + 1]);
-                }
-                k += d;
-            }
-        }
-        for _ in 0..6 {
-            v.push(r.below(w as u64) as u32);
-        }
-    }
-    for k in [5u32, 6, 7, 8, 9, 10, 11, 12, 15, 16, 24, 31] {
-        v.push(1u32 << k);
-        v.push((1u32 << k) - 1);
-        if !thorough && k > 8 && r.below(2) == 0 {
-            v.pop();
-        }
-    }
-    v.extend([u32::MAX, u32::MAX - 1, 1u32 << 31, (1u32 << 31) + w - 1, u32::MAX - w + 1, 3 * w, 3 * w + 1, 1000 * w + 5]);
-    v.sort();
-    v.dedup();
-    v
-}
-
-/// a handful of operands for the 2080- and 8192-bit types
-fn giant_inputs(prop: &str, seed: u64, w: u32, thorough: bool) -> Inputs {
-    let n = (w / 8) as usize;
-    let mut r = Rng::new(seed ^ ((w as u64) << 32) ^ 0x61a47);
-    let mut i = Inputs::default();
-    let k = if thorough { 10 } else { 2 };
-    match prop {
-        "C05" => {
-            let amts: Vec<u32> = vec![0, 1, 7, 8, 9, 63, 64, 65, w / 2, w - 65, w - 64, w - 63, w - 33, w - 32, w - 9, w - 8, w - 1, w, w + 1, 2048, 2047, 2049, u32::MAX];
-            for a in amts {
-                i.shifts.push((gen::small(n, 3), a));
-                i.shifts.push((gen::random(&mut r, n), a));
-                for _ in 0..k {
-                    let sl = 1 + r.below(n as u64) as usize;
-                    let sv = gen::fit(&gen::short(&mut r, sl), n);
-                    let sa = r.below(w as u64) as u32;
-                    i.shifts.push((sv, sa));
-                }
-            }
-        }
-        "C06" => {
-            i.vals = vec![gen::ones(n), gen::smin(n), gen::small(n, 1), gen::random(&mut r, n), gen::pow2(n, (w / 2 + 3) as usize)];
-            i.pairs = vec![(gen::random(&mut r, n), gen::random(&mut r, n))];
-            i.bits = vec![(gen::random(&mut r, n), w - 1), (gen::zero(n), w / 2 + 1), (gen::ones(n), 2055.min(w - 1))];
-        }
-        "C07" => {
-            let a = gen::random(&mut r, n);
-            let mut b = a.clone();
-            b[n / 2] ^= 1;
-            i.triples = vec![(a.clone(), b, gen::zero(n)), (gen::ones(n), gen::smin(n), gen::smax(n)), (a.clone(), a, gen::small(n, 1))];
-        }
-        _ => {}
-    }
-    i
-}
-
-fn inputs(prop: &str, seed: u64, w: u32, thorough: bool) -> Inputs {
-    if w > 1024 {
-        return giant_inputs(prop, seed, w, thorough);
-    }
-    let n = (w / 8) as usize;
-    let mut r = Rng::new(seed ^ ((w as u64) << 32) ^ (prop.as_bytes()[2] as u64 * 131 + prop.as_bytes()[1] as u64));
-    let mut i = Inputs::default();
-    let bnd = gen::boundary(n);
-    if thorough && w == 8 {
-        // thorough tier: the 8-bit types completely
-        let all: Vec<B> = (0..=255u8).map(|v| vec![v]).collect();
-        match prop {
-            "C05" => {
-                let mut amts: Vec<u32> = (0..=17).collect();
-                amts.extend([31, 32, 33, 63, 64, 65, 255, 256, 257, 1 << 16, 1 << 31, u32::MAX - 1, u32::MAX]);
-                i.shifts = all.iter().flat_map(|a| amts.clone().into_iter().map(move |k| (a.clone(), k))).collect();
-            }
-            "C06" => {
-                i.vals = all.clone();
-                i.pairs = all.iter().flat_map(|a| all.iter().map(move |b| (a.clone(), b.clone()))).collect();
-                i.bits = all.iter().flat_map(|a| (0..8u32).map(move |k| (a.clone(), k))).collect();
-            }
-            "C07" => {
-                // every pair, with a third operand that makes every ordering of (a, b, c) occur
-                i.triples = all.iter().flat_map(|a| all.iter().map(move |b| (a.clone(), b.clone(), vec![a[0].wrapping_mul(5) ^ b[0].rotate_left(3)]))).collect();
-            }
-            _ => panic!("unknown property"),
-        }
-        return i;
-    }
-    match prop {
-        "C05" => {
-            let amts = shift_amounts(&mut r, w, thorough);
-            let xs_fixed = [gen::ones(n), gen::small(n, 1), gen::smin(n), gen::smax(n), gen::sub1(&gen::ones(n))];
-            let per = if thorough { 6 } else { 2 };
-            for a in amts {
-                i.shifts.push((r.pick(&xs_fixed).clone(), a));
-                for _ in 0..per {
-                    i.shifts.push((gen::any(&mut r, n, &bnd), a));
-                }
-                i.shifts.push((gen::random(&mut r, n), a));
-            }
-        }
-        "C06" => {
-            i.vals = gen::values(&mut r, n, if thorough { 500 } else { 70 });
-            // k whole extreme digits followed by a partial digit, at every granularity
-            for g in [1usize, 2, 4, 8] {
-                let mut k = 0;
-                while k * g <= n {
-                    if thorough || r.below(3) == 0 {
-                        for fill in [0u8, 0xff] {
-                            for lead in [false, true] {
-                                let mut v = gen::random(&mut r, n);
-                                let m = (k * g).min(n);
-                                let sh = r.below(8) as u32;
-                                if lead {
-                                    for j in 0..m {
-                                        v[n - 1 - j] = fill;
-                                    }
-                                    if m < n {
-                                        // sh copies of the fill bit at the top, then the opposite bit
-                                        let keep = (v[n - 1 - m] as u32) & ((1u32 << (7 - sh)) - 1);
-                                        let hi = if fill == 0 { 1u32 << (7 - sh) } else { (0xffu32 << (8 - sh)) & 0xff };
-                                        v[n - 1 - m] = (hi | keep) as u8;
-                                    }
-                                } else {
-                                    for j in 0..m {
-                                        v[j] = fill;
-                                    }
-                                    if m < n {
-                                        let keep = (v[m] as u32) & (0xffu32 << (sh + 1)) & 0xff;
-                                        let lo = if fill == 0 { 1u32 << sh } else { (1u32 << sh) - 1 };
-                                        v[m] = (keep | lo) as u8;
-                                    }
-                                }
-                                i.vals.push(v);
-                            }
-                        }
-                    }
-                    k += 1;
-                }
-            }
-            // k digits that are each a single bit (k = 2..5), per granularity: sparse patterns for tests that
-            // combine per-digit predicates
-            for g in [1usize, 2, 4, 8] {
-                let nd = n / g;
-                for k in 2..=5usize {
-                    if k <= nd && (thorough || r.below(2) == 0) {
-                        let mut v = gen::zero(n);
-                        let mut used = Vec::new();
-                        while used.len() < k {
-                            let d = r.below(nd as u64) as usize;
-                            if !used.contains(&d) {
-                                used.push(d);
-                                let bit = r.below((8 * g) as u64) as usize;
-                                v[d * g + bit / 8] |= 1 << (bit % 8);
-                            }
-                        }
-                        i.vals.push(v);
-                    }
-                }
-            }
-            // digit sequences with internal symmetry at every granularity (reversals and exchanges of digit pairs)
-            for g in [1usize, 2, 4, 8] {
-                if 2 * g <= n {
-                    i.vals.push(gen::symmetric(&mut r, n, g, 0));
-                    i.vals.push(gen::symmetric(&mut r, n, g, 1));
-                }
-            }
-            // exact powers of two and neighbours (next_power_of_two, is_power_of_two)
-            for k in 0..(8 * n) {
-                if thorough || r.below(5) == 0 || k + 1 == 8 * n || k % 64 == 0 || k % 8 == 7 {
-                    let p = gen::pow2(n, k);
-                    i.vals.push(gen::sub1(&p));
-                    i.vals.push(gen::add1(&p));
-                    i.vals.push(p);
-                }
-            }
-            i.pairs = gen::pairs(&mut r, n, if thorough { 300 } else { 40 });
-            let idx: Vec<u32> = if thorough || w <= 32 { (0..w).collect() } else {
-                let mut v: Vec<u32> = vec![0, 1, 7, 8, 9, 15, 16, 17, 31, 32, 33, 63, 64, 65, w - 1, w - 2, w - 8, w - 9, w / 2];
-                v.retain(|x| *x < w);
-                for _ in 0..8 {
-                    v.push(r.below(w as u64) as u32);
-                }
-                v.sort();
-                v.dedup();
-                v
-            };
-            for k in idx {
-                i.bits.push((gen::any(&mut r, n, &bnd), k));
-                i.bits.push((if r.below(2) == 0 { gen::ones(n) } else { gen::zero(n) }, k));
-            }
-        }
-        "C07" => {
-            let np = if thorough { 1500 } else { 120 };
-            let mut ps: Vec<(B, B)> = gen::pairs(&mut r, n, np / 2);
-            // equal on the top k bytes, differing below; and differing only in one middle digit
-            while ps.len() < np {
-                let a = gen::any(&mut r, n, &bnd);
-                let mut b = a.clone();
-                match r.below(7) {
-                    0 => {
-                        let k = r.below(n as u64) as usize;
-                        for j in 0..=k.min(n - 1) {
-                            if r.below(2) == 0 {
-                                b[j] = (r.next() & 0xff) as u8;
-                            }
-                        }
-                    }
-                    1 => {
-                        let k = r.below(n as u64) as usize;
-                        b[k] ^= 1 << r.below(8);
-                    }
-                    2 => {
-                        // same magnitude bits, opposite sign bit
-                        b[n - 1] ^= 0x80;
-                    }
-                    5 | 6 => {
-                        // the same mask flipped in two different digits (differences that cancel under xor), per granularity
-                        let g = *r.pick(&[1usize, 2, 4, 8]);
-                        if 2 * g <= n {
-                            let nd = n / g;
-                            let i = r.below(nd as u64) as usize;
-                            let mut j = r.below(nd as u64) as usize;
-                            if j == i {
-                                j = (i + 1) % nd;
-                            }
-                            let m: Vec<u8> = (0..g).map(|_| (r.next() & 0xff) as u8 | 1).collect();
-                            for t in 0..g {
-                                b[i * g + t] ^= m[t];
-                                b[j * g + t] ^= m[t];
-                            }
-                        }
-                    }
-                    3 => {
-                        // a digit ordered one way, the digits below it the other way -- at every digit granularity,
-                        // so that for each digit type two ADJACENT digits differ in opposite directions under a
-                        // shared prefix of equal higher digits
-                        let g = *r.pick(&[1usize, 2, 4, 8]);
-                        let nd = n / g;
-                        if nd >= 2 {
-                            let k = 1 + r.below(nd as u64 - 1) as usize;
-                            let up = r.below(2) == 0;
-                            let bump = |v: &mut B, at: usize, inc: bool| {
-                                v[at] = if inc { v[at].wrapping_add(1) } else { v[at].wrapping_sub(1) };
-                            };
-                            bump(&mut b, k * g + r.below(g as u64) as usize, up);
-                            bump(&mut b, (k - 1) * g + r.below(g as u64) as usize, !up);
-                            if k >= 2 && r.below(2) == 0 {
-                                bump(&mut b, (k - 2) * g, up);
-                            }
-                        } else {
-                            b[0] = b[0].wrapping_add(1);
-                        }
-                    }
-                    _ => {}
-                }
-                ps.push((a, b));
-            }
-            for (a, b) in ps {
-                let c = match r.below(4) {
-                    0 => a.clone(),
-                    1 => b.clone(),
-                    _ => gen::any(&mut r, n, &bnd),
-                };
-                i.triples.push((a, b, c));
-            }
-            // sign tests: zero top digit with non-zero lower digits, at every granularity
-            for g in [1usize, 2, 4, 8] {
-                let mut k = 0;
-                while (k + 1) * g <= n {
-                    let mut v = gen::zero(n);
-                    v[k * g] = 1;
-                    i.triples.push((v.clone(), gen::zero(n), gen::negate(&v)));
-                    k += 1;
-                }
-            }
-        }
-        _ => panic!("unknown property"),
-    }
-    i
-}
-
-macro_rules! run_all {
-    (@go $prim:tt, $imp:literal, $w:literal; $(($U:ty, $I:ty)),+) => {
-        CTX.with(|c| {
-            let mut c = c.borrow_mut();
-            let c = c.as_mut().unwrap();
-            if c.cli.only_width.map_or(true, |x| x == $w) {
-                let inp = inputs(&c.cli.prop, c.cli.seed, $w, c.cli.tier == "thorough");
-                let mut us: Vec<(&'static str, Rec)> = Vec::new();
-                let mut is: Vec<(&'static str, Rec)> = Vec::new();
-                $(
-                    {
-                        let mut ru = Rec::new();
-                        let mut ri = Rec::new();
-                        for (x, s) in inp.shifts.iter() {
-                            c05_pair!($U, $I, ru, ri, x, *s, $prim);
-                        }
-                        for (a, b) in inp.pairs.iter() {
-                            c06_pair!($U, $I, ru, ri, a, b, $prim);
-                        }
-                        for a in inp.vals.iter() {
-                            c06_unary!($U, $I, ru, ri, a, $prim);
-                        }
-                        for (a, k) in inp.bits.iter() {
-                            c06_bit!($U, $I, ru, ri, a, *k, $prim);
-                        }
-                        for (a, b, cc) in inp.triples.iter() {
-                            c07_pair!($U, $I, ru, ri, a, b, cc, $prim);
-                        }
-                        us.push((<$U as Bn>::DT, ru));
-                        is.push((<$I as Bn>::DT, ri));
-                    }
-                )+
-                c.sink.merge($w, false, $imp, us);
-                c.sink.merge($w, true, $imp, is);
-            }
-        });
+macro_rules! the_matrix {
+    ($m:ident) => {
+        bnum_verif_harness::for_matrix!($m);
     };
 }
-macro_rules! run_bnum {
-    ($w:literal; $(($U:ty, $I:ty)),+) => { run_all!(@go bnum, "bnum", $w; $(($U, $I)),+); };
+macro_rules! the_giants {
+    ($m:ident) => {
+        bnum_verif_harness::for_giants!($m);
+    };
 }
-macro_rules! run_prim {
-    ($w:literal; $(($U:ty, $I:ty)),+) => { run_all!(@go prim, "prim", $w; $(($U, $I)),+); };
-}
-
-struct Ctx {
-    cli: Cli,
-    sink: Sink,
-}
-thread_local! {
-    static CTX: std::cell::RefCell<Option<Ctx>> = std::cell::RefCell::new(None);
-}
-
-fn main() {
-    install_hook();
-    let cli = parse_cli();
-    let prop = cli.prop.clone();
-    let sink = Sink::new(&cli.out, &prop);
-    let prims = cli.extra.iter().any(|x| x == "--prims");
-    CTX.with(|c| *c.borrow_mut() = Some(Ctx { cli, sink }));
-    if prims {
-        for_prims!(run_prim);
-    } else {
-        for_matrix!(run_bnum);
-        for_giants!(run_bnum);
-    }
-    let ctx = CTX.with(|c| c.borrow_mut().take().unwrap());
-    let (n, splits) = ctx.sink.finish();
-    eprintln!("recorded {} events, {} digit-type splits, mode {}", n, splits, MODE);
-}
+include!("../drv/bits.rs");
